@@ -2,7 +2,7 @@
    Only statements here; every proof is `exact <lemma>` into Proofs/.  All theorems hold for an arbitrary
    user-code oracle `body` (called with ORIGINAL parameter names) and output picker `pick`. *)
 From Verif Require Import Base.Prelude Base.StrOrd Base.StrUtil Base.Graph Model.Pipe Model.Rewrite Model.Alias
-  Proofs.GraphFacts Proofs.RewriteFacts Proofs.AliasFacts.
+  Proofs.GraphFacts Proofs.RewriteFacts Proofs.AliasFacts Proofs.NestFacts Proofs.C10Witness.
 
 (* ---------- renaming ---------- *)
 (* rename_preserves: for a renaming that is one-to-one on the names involved, the renamed pipeline evaluates the
@@ -124,6 +124,87 @@ Example C10_example_isolated :
          /\ exists h3, Alias.step (fun _ m => m) h2 (Alias.HUpdateDefaults Q [(s "x", s "dx")]) = Some (h3, None)
                         /\ Alias.pobs h3 P = Alias.pobs h2 P /\ Alias.pobs h3 Q <> Alias.pobs h2 Q).
 Proof. exact alias_instance. Qed.
+
+(* ---------- dotted keys vs nested dicts ---------- *)
+(* Pipeline._flatten_scopes expands dicts in place: whatever mixture of nested dicts and dotted keys is passed
+   (no two spellings of one keyword: NoDup all_keys), the flat keyword list it denotes (flat_of) is unchanged;
+   once no dict is left that list is what the run uses (flat_vals), and a dotted list denotes itself *)
+Theorem C10_dotted_nested_equiv : forall P kw kw', flatten_scopes P kw = Ok kw' -> NoDup (all_keys kw) ->
+  flat_of kw' = flat_of kw /\ NoDup (all_keys kw').
+Proof. exact flatten_scopes_flat_of. Qed.
+Print Assumptions C10_dotted_nested_equiv.
+
+Theorem C10_flat_vals_flat_of : forall kw,
+  forallb (fun kv => match snd kv with KV _ => true | KD _ => false end) kw = true -> flat_vals kw = flat_of kw.
+Proof. exact flat_vals_flat_of. Qed.
+Print Assumptions C10_flat_vals_flat_of.
+
+Example C10_example_nested :
+  let P := [mkf (s "f") [s "sc.a"] [(s "sc.x", s "x"); (s "t.y", s "y")] [] [] false;
+            mkf (s "g") [s "b"] [(s "t.z", s "z"); (s "w", s "w")] [] [] false] in
+  let kw := [(s "sc", KD [(s "x", s "1")]); (s "t.y", KV (s "2")); (s "t", KD [(s "z", s "3")]); (s "w", KV (s "4"))] in
+  NoDup (all_keys kw)
+  /\ flatten_scopes P kw = Ok (dotted [(s "sc.x", s "1"); (s "t.y", s "2"); (s "t.z", s "3"); (s "w", s "4")])
+  /\ flat_of kw = [(s "sc.x", s "1"); (s "t.y", s "2"); (s "t.z", s "3"); (s "w", s "4")].
+Proof.
+  cbv zeta. split; [|split; vm_compute; reflexivity].
+  apply nodup_strb_NoDup. vm_compute. reflexivity.
+Qed.
+
+(* ---------- the embedding of Model/Pipe.v ---------- *)
+(* on pipelines without nested functions the evaluation used here is the specification `Pipe.eval` of C02 *)
+Theorem C10_neval_lift : forall body pick fuel p kw o,
+  neval body pick fuel (lift p) kw o = eval body pick fuel p kw o.
+Proof. exact neval_lift. Qed.
+Print Assumptions C10_neval_lift.
+
+(* ---------- nest_funcs ---------- *)
+(* nest_preserves, soundness direction: whenever the pipeline produced by nest_funcs(names, new_out) computes a
+   value for an output, the original pipeline computes that same value for the same keywords - provided the
+   keywords do not name an output produced inside the nested group, every output of the group that a function
+   outside consumes is kept (new_out), and root arguments keep their defaults (extra hypothesis, not derived).
+   NOT proved: the converse (the nested pipeline succeeds whenever the original does and all arguments of the
+   nested function have values); it is exercised by the correspondence check only.
+   Full statement wanted:  wf p -> nest names new_out p = Ok p' -> o retained -> kw over the root arguments of p'
+                           -> neval p' kw o = neval p kw o   (up to fuel). *)
+Theorem C10_nest_preserves_partial : forall body pick names new_out p p' kw,
+  nest names new_out p = Ok p' ->
+  (forall n1 n2 o, In n1 p -> In n2 p -> In o (outs (nf n1)) -> In o (outs (nf n2)) -> n1 = n2) ->
+  (forall n, In n p -> outs (nf n) <> []) ->
+  let fs := group p names in
+  (forall k, In k (akeys kw) -> ~ In k (all_outputs (funcs fs))) ->
+  (forall a c, In a p -> ~ In a fs -> In c (pnames (nf a)) -> ahas (bound (nf a)) c = false ->
+               In c (all_outputs (funcs fs)) -> In c (nested_outs fs new_out)) ->
+  (forall c, is_output (funcs p) c = false -> default_of (funcs p') c = default_of (funcs p) c) ->
+  forall n o v, neval body pick n p' kw o = Ok v -> exists m, neval body pick m p kw o = Ok v.
+Proof. exact nest_preserves. Qed.
+Print Assumptions C10_nest_preserves_partial.
+
+(* non-vacuity: f(x)->a, g(a,y)->b, h(b,a)->c ; nest {a, b} keeping (a, b) *)
+Example C10_example_nest :
+  let p := lift [mkf (s "f") [s "a"] [(s "x", s "x")] [] [] false;
+                 mkf (s "g") [s "b"] [(s "a", s "a"); (s "y", s "y")] [] [] false;
+                 mkf (s "h") [s "c"] [(s "b", s "b"); (s "a", s "a")] [] [] false] in
+  exists p', nest [s "a"; s "b"] (Some [s "a"; s "b"]) p = Ok p'
+    /\ (forall c, default_of (funcs p') c = default_of (funcs p) c)
+    /\ neval Sym.body Sym.pick 5 p' [(s "x", s "X"); (s "y", s "Y")] (s "c") = Ok (s "h(b=g(a=f(x=X),y=Y),a=f(x=X))")
+    /\ neval Sym.body Sym.pick 5 p [(s "x", s "X"); (s "y", s "Y")] (s "c") = Ok (s "h(b=g(a=f(x=X),y=Y),a=f(x=X))").
+Proof.
+  cbv zeta. eexists. split; [vm_compute; reflexivity|]. split; [intros c; reflexivity|].
+  split; vm_compute; reflexivity.
+Qed.
+
+(* ---------- simplified_pipeline ---------- *)
+(* NOT proved: simplify_preserves (every output retained by simplified_pipeline evaluates as in p).  The rewrite
+   is modelled (Model/Rewrite.simplify) and checked by correspondence only; it builds all NestedPipeFuncs at once
+   from the original functions, which the one-group theorem above does not cover.
+   What the model DOES show: "every request with combinable nodes is accepted" is false of the code - a function
+   combinable with two heads lands in two groups and the construction of the result is refused (known finding
+   simplify-shared-dependency) *)
+Theorem C10_simplify_accepts_refuted :
+  exists c, Run_C10.spec_ok c (Run_C10.run c) = false.
+Proof. exact simplify_refuted. Qed.
+Print Assumptions C10_simplify_accepts_refuted.
 
 (* ---------- add_mapspec_axis (map side; the names of Model/MapSpec.v shadow those of Model/Pipe.v from here on) ---------- *)
 From Verif Require Import Base.Index Base.NdArr Model.MapSpec Model.MapSpecSpec Model.MapRun Model.RewriteMap
